@@ -8,7 +8,7 @@ from iogen import T, Slice, Array, Map, Ptr, Reg, Anon, IFACE, hx
 V = os.path.dirname(os.path.dirname(os.path.abspath(__file__)))
 
 
-def corpus_cases():
+def corpus_cases(prop=None):
     """Minimised failing cases of earlier runs (fixed defects and known findings); they run first."""
     out = []
     d = os.path.join(V, "corpus", "io")
@@ -16,6 +16,8 @@ def corpus_cases():
         for f in sorted(os.listdir(d)):
             if f.endswith(".json"):
                 c = json.load(open(os.path.join(d, f)))
+                if prop and prop not in c.get("properties", []):
+                    continue
                 for case in c["cases"]:
                     case = dict(case)
                     case["tag"] = "corpus:" + f[:-5]
